@@ -1,19 +1,32 @@
-/* C28 real-process driver: dlopen()s three CFFI-embedded libraries and races
-   their first calls from <nth> threads.  usage: drv libA libB libF seed nth ncalls */
+/* C28 real-process driver: dlopen()s four CFFI-embedded libraries and races
+   their first calls from <nth> threads; with <late> != 0 the threads other than
+   thread 0 start after a pseudo-random delay of 0..175 ms and make their first call
+   into the library thread 0 calls first (first calls that arrive while another
+   thread runs the init code); <late> == 2: that library is libR, and the odd threads
+   make their first call as soon as the init log says that libR's init code has
+   returned from the call of its own function (bounded wait).
+   usage: drv libA libB libF libR seed nth ncalls late initlog */
 #include <stdio.h>
 #include <dlfcn.h>
 #include <pthread.h>
 #include <stdlib.h>
+#include <unistd.h>
+#include <string.h>
 typedef int (*fn_t)(int);
-static fn_t fns[3];
+static fn_t fns[4];
+static int delay_us[16], late;
+static const char *logfile;
+static void wait_for_own_call(void){ int n; char buf[4096]; for(n=0;n<5000;n++){ FILE*f=fopen(logfile,"r"); if(f){ size_t k=fread(buf,1,sizeof(buf)-1,f); buf[k]=0; fclose(f); if(strstr(buf,"after-own-call")) return; } usleep(1000); } }
 static int nth, ncalls, which[16][8], res[16][8];
 static pthread_barrier_t bar;
-static void *worker(void *arg){ long t=(long)arg; int i; pthread_barrier_wait(&bar); for(i=0;i<ncalls;i++) res[t][i]=fns[which[t][i]](t*10+i); return NULL; }
+static void *worker(void *arg){ long t=(long)arg; int i; pthread_barrier_wait(&bar); if(late==2&&t>0&&(t&1)) wait_for_own_call(); else if(delay_us[t]) usleep(delay_us[t]); for(i=0;i<ncalls;i++) res[t][i]=fns[which[t][i]](t*10+i); return NULL; }
 int main(int argc,char**argv){
-  const char *names[3]={"fnA","fnB","fnF"}; int i,t; pthread_t th[16]; unsigned seed=atoi(argv[4]);
-  for(i=0;i<3;i++){ void*h=dlopen(argv[1+i],RTLD_NOW|RTLD_GLOBAL); if(!h){printf("dlopen %s\n",dlerror());return 2;} fns[i]=(fn_t)dlsym(h,names[i]); }
-  nth=atoi(argv[5]); ncalls=atoi(argv[6]);
-  for(t=0;t<nth;t++)for(i=0;i<ncalls;i++){ seed=seed*1103515245u+12345u; which[t][i]=(seed>>16)%3; }
+  const char *names[4]={"fnA","fnB","fnF","fnR"}; int i,t; pthread_t th[16]; unsigned seed=atoi(argv[5]);
+  for(i=0;i<4;i++){ void*h=dlopen(argv[1+i],RTLD_NOW|RTLD_GLOBAL); if(!h){printf("dlopen %s\n",dlerror());return 2;} fns[i]=(fn_t)dlsym(h,names[i]); }
+  nth=atoi(argv[6]); ncalls=atoi(argv[7]); late=atoi(argv[8]); logfile=argc>9?argv[9]:"/nonexistent";
+  for(t=0;t<nth;t++)for(i=0;i<ncalls;i++){ seed=seed*1103515245u+12345u; which[t][i]=(seed>>16)%4; }
+  if(late==2)which[0][0]=3;
+  if(late)for(t=1;t<nth;t++){ seed=seed*1103515245u+12345u; delay_us[t]=((seed>>16)%8)*25000; which[t][0]=which[0][0]; }
   pthread_barrier_init(&bar,NULL,nth);
   for(t=0;t<nth;t++)pthread_create(&th[t],NULL,worker,(void*)(long)t);
   for(t=0;t<nth;t++)pthread_join(th[t],NULL);
